@@ -68,37 +68,37 @@ Proof.
   unfold refresh. rewrite Hu. destruct (upd + 5000 <? now); cbn [x_slots x_create x_update x_first]; auto.
 Qed.
 
-(* C14 expiry: the end of the first read that comes more than 60 s after packet 1 removes the
-   transfer without a re-request, and whatever arrives afterwards - all the remaining packets
-   included - delivers nothing for X and re-requests nothing, until a new packet 1 *)
-Theorem expiry s0 t1 p1 rest now later :
+(* C14 expiry: once more than 60 s have passed since packet 1, the transfer is gone for good: the
+   first event later than that - the end of a read OR a message, the remaining packets included:
+   parse drops stale transfers before it processes the messages of a read - and whatever follows
+   delivers nothing for X and re-requests nothing, until a new packet 1 *)
+Theorem expiry s0 t1 p1 rest now e later :
   wf s0 -> good_pkt X NN bodies p1 -> m_no p1 = 1 -> Forall (ok_after_n X n bodies t1) rest ->
   ~ covers NN (numbers X NN ((t1, EvMsg p1) :: rest)) -> t1 + 60000 < now ->
-  Forall (fun te => no_start X (snd te)) later ->
-  let outs := snd (run s0 (((t1, EvMsg p1) :: rest) ++ (now, EvEnd) :: later)) in
+  Forall (fun te => no_start X (snd te)) ((now, e) :: later) ->
+  let outs := snd (run s0 (((t1, EvMsg p1) :: rest) ++ (now, e) :: later)) in
   completions X outs = [] /\
   rereqs_from (S (length rest)) X (skipn (S (length rest)) outs) = [] /\
-  find X (fst (run s0 (((t1, EvMsg p1) :: rest) ++ (now, EvEnd) :: later))) = None.
+  find X (fst (run s0 (((t1, EvMsg p1) :: rest) ++ (now, e) :: later))) = None.
 Proof.
   intros Hwf Hg H1 Hall Hnc Hnow Hlater. cbn zeta. unfold NN in *.
   destruct (state_after X n bodies Hlen Hne Hn1 s0 t1 p1 rest Hwf Hg H1 Hall Hnc) as [Hc0 Hp].
   rewrite run_app. pose proof (run_length s0 ((t1, EvMsg p1) :: rest)) as Hl1.
   destruct (run s0 ((t1, EvMsg p1) :: rest)) as [s1 o1]. cbn [fst snd] in *.
   destruct Hp as (Hwf1 & x & Hf & Hs & Hc & Hu & Hfirst).
-  cbn [run]. pose proof (step_end_rr X now s1 Hwf1) as Hrr. pose proof (step_end_find X now s1 Hwf1) as Hfind.
-  pose proof (wf_step now s1 EvEnd Hwf1) as Hwf2.
-  rewrite Hf in Hrr, Hfind. unfold expired in Hrr, Hfind. rewrite Hc in Hrr, Hfind.
-  replace (t1 + 60000 <? now) with true in Hrr, Hfind by lia.
-  destruct (step now s1 EvEnd) as [s2 o] eqn:Hstep. cbn [fst snd] in *.
-  assert (Ho : exists l, o = ORereq l).
-  { cbn [step] in Hstep. destruct (housekeeping now s1). injection Hstep as _ <-. eauto. }
-  destruct Ho as [l ->]. cbn [rr_for] in Hrr.
-  destruct (run_absent X later s2 (S (length o1)) Hwf2 Hfind Hlater) as (Hc2 & Hr2 & Hf2).
-  destruct (run s2 later) as [s3 o3]. cbn [fst snd] in *.
+  (* the first late event starts by dropping the transfer *)
+  assert (Hrun : run s1 ((now, e) :: later) = run (delete_timeout now s1) ((now, e) :: later)).
+  { cbn [run]. now rewrite step_dt. }
+  rewrite Hrun.
+  assert (Hgone : find X (delete_timeout now s1) = None).
+  { eapply dt_find_old; eauto. rewrite Hc. apply N.ltb_lt. lia. }
+  destruct (run_absent X ((now, e) :: later) (delete_timeout now s1) (length o1) (wf_dt now s1 Hwf1) Hgone Hlater)
+    as (Hc2 & Hr2 & Hf2).
+  destruct (run (delete_timeout now s1) ((now, e) :: later)) as [s3 o3]. cbn [fst snd] in *.
   split; [|split].
-  - unfold completions in *. rewrite completions_from_app, Hc0. cbn [app completions_from Nat.add]. exact Hc2.
-  - cbn [length] in Hl1. rewrite <- Hl1. rewrite skipn_app, skipn_all, Nat.sub_diag. cbn [app skipn rereqs_from].
-    rewrite Hrr. cbn [map app]. exact Hr2.
+  - unfold completions in *. rewrite completions_from_app, Hc0. cbn [app Nat.add]. exact Hc2.
+  - cbn [length] in Hl1. rewrite <- Hl1. rewrite skipn_app, skipn_all, Nat.sub_diag. cbn [app skipn].
+    exact Hr2.
   - exact Hf2.
 Qed.
 
@@ -135,9 +135,9 @@ Qed.
 Lemma stamp_step X t now s e : wf s -> stamp_ge X t s -> t <= now -> stamp_ge X t (fst (step now s e)).
 Proof.
   intros Hwf Hs Ht x' Hf. destruct e as [m|].
-  - cbn [step] in Hf. destruct (complete_pack now s m) as [s1 r] eqn:Hcp. cbn [fst] in Hf.
-    replace s1 with (fst (complete_pack now s m)) in Hf by now rewrite Hcp.
-    apply cp_stamp in Hf. destruct Hf as [Hf|Hf]. lia. now apply Hs.
+  - cbn [step] in Hf. destruct (complete_pack now (delete_timeout now s) m) as [s1 r] eqn:Hcp. cbn [fst] in Hf.
+    replace s1 with (fst (complete_pack now (delete_timeout now s) m)) in Hf by now rewrite Hcp.
+    apply cp_stamp in Hf. destruct Hf as [Hf|Hf]. lia. apply Hs. eapply dt_find_some_inv; eauto.
   - rewrite step_end_find in Hf by exact Hwf. destruct (find X s) as [x|] eqn:Hx; [|discriminate].
     destruct (expired now x); [discriminate|]. injection Hf as <-. specialize (Hs x Hx).
     unfold refresh. destruct (x_update x + 5000 <? now); cbn [x_update]; lia.
@@ -186,21 +186,34 @@ Theorem quiet_after_packet X s t m between tj : wf s -> stored X s m ->
 Proof.
   intros Hwf (Hid & Hsum & Hst) Hall H2.
   assert (Hs : stamp_ge X t (fst (step t s (EvMsg m)))).
-  { intros x' Hf. cbn [step] in Hf. destruct (complete_pack t s m) as [s1 r] eqn:Hcp. cbn [fst] in Hf.
-    assert (Hs1 : s1 = fst (complete_pack t s m)) by now rewrite Hcp. rewrite Hs1 in Hf. clear Hcp Hs1.
-    rewrite complete_pack_eq in Hf. replace (m_sum m =? 0) with false in Hf by lia.
-    destruct Hst as [H1|(x & Hx & Hno)].
-    - replace (m_no m =? 1) with true in Hf by lia.
+  { intros x' Hf. cbn [step] in Hf.
+    assert (Hst' : m_no m = 1 \/ (exists x, find X (delete_timeout t s) = Some x /\ 1 <= m_no m <= len (x_slots x)) \/
+                   (m_no m <> 1 /\ find X (delete_timeout t s) = None)).
+    { destruct Hst as [H1|(x & Hx & Hno)]; [now left|].
+      destruct (N.eq_dec (m_no m) 1) as [E1|E1]; [now left|]. right.
+      destruct (x_create x + 60000 <? t) eqn:Old.
+      - right. split; auto. eapply dt_find_old; eauto.
+      - left. exists x. split; auto. eapply dt_find_young; eauto. }
+    clear Hst. set (s' := delete_timeout t s) in *. clearbody s'.
+    destruct Hst' as [H1|[(x & Hx & Hno)|(Hn1 & Hnone)]].
+    - destruct (complete_pack t s' m) as [s1 r] eqn:Hcp. cbn [fst] in Hf.
+      assert (Hs1 : s1 = fst (complete_pack t s' m)) by now rewrite Hcp. rewrite Hs1 in Hf. clear Hcp Hs1.
+      rewrite complete_pack_eq in Hf. replace (m_sum m =? 0) with false in Hf by lia.
+      replace (m_no m =? 1) with true in Hf by lia.
       apply cp_tail_stamp in Hf. destruct Hf as [Hf|Hf]. lia.
       rewrite <- Hid, find_put_same in Hf. injection Hf as <-. cbn [new_xfer x_update]. lia.
-    - destruct (m_no m =? 1).
+    - destruct (complete_pack t s' m) as [s1 r] eqn:Hcp. cbn [fst] in Hf.
+      assert (Hs1 : s1 = fst (complete_pack t s' m)) by now rewrite Hcp. rewrite Hs1 in Hf. clear Hcp Hs1.
+      rewrite complete_pack_eq in Hf. replace (m_sum m =? 0) with false in Hf by lia.
+      destruct (m_no m =? 1).
       + apply cp_tail_stamp in Hf. destruct Hf as [Hf|Hf]. lia.
         rewrite <- Hid, find_put_same in Hf. injection Hf as <-. cbn [new_xfer x_update]. lia.
       + unfold cp_tail in Hf. rewrite Hid, Hx in Hf.
         replace ((m_no m <? 1) || (len (x_slots x) <? m_no m)) with false in Hf by lia. cbn zeta in Hf.
         destruct (received _ =? m_sum m); cbn [fst] in Hf.
         * now rewrite find_remove_same in Hf.
-        * rewrite find_put_same in Hf. injection Hf as <-. cbn [x_update]. lia. }
+        * rewrite find_put_same in Hf. injection Hf as <-. cbn [x_update]. lia.
+    - rewrite (cp_absent X t s' m Hnone Hid Hn1) in Hf. cbn [fst] in Hf. congruence. }
   pose proof (wf_step t s (EvMsg m) Hwf) as Hwf1.
   eapply rr_needs_old_stamp; [| |exact H2]. now apply wf_run. now apply stamp_run.
 Qed.
